@@ -67,11 +67,13 @@ def check(spec):
             a2 = Atoms.load(path)
             with open(path) as fh:
                 a3 = Atoms.load(fh, filetype='cml')
+            a4 = Atoms.load_cml(io.StringIO(text), verbose=True)      # the same document with progress printing switched on
+            a5 = Atoms.load(path, verbose=True)
             os.unlink(path)
             os.rmdir(d)
         except Exception as e:
             return "loading a document with %d atoms and %d bonds raised %r" % (len(atoms), len(bonds), e)
-    for name, a in (('file object', a1), ('path', a2), ('open file via load', a3)):
+    for name, a in (('file object', a1), ('path', a2), ('open file via load', a3), ('file object, verbose', a4), ('path, verbose', a5)):
         if len(a.positions) != len(atoms):
             return "%s: %d atoms loaded, document has %d" % (name, len(a.positions), len(atoms))
         if list(a.elements) != [x[1] for x in atoms]:
